@@ -886,6 +886,25 @@ def rule_TK(run: Run) -> RuleResult:
                 ok_e, detail = False, detail_ + (f" with keys {ing.keyterm.key()[:60]}" if isinstance(ing, Coll) and ing.keyterm is not None else "")
     ok_e = ok_e and saw_full
     res.add("labrea.template.Template.evaluate:resolves self.template against options mixed with the :name: parameters", ok_e, f, ev.lineno, detail, nec)
+    # resolve() resolves what it substitutes once more (that is how {KEY} -> '{OTHER}/x' is followed, and Option.keys follows it too).
+    # A *parameter* is put into the dictionary resolve() works on, so its evaluated value gets the same treatment: a value whose text
+    # contains {X} makes the template read option X — which keys()/explain()/validate(), not knowing the value, cannot report.
+    raw = False
+    for p_ in run.paths(t, "evaluate"):
+        for e in p_.events:
+            if e.kind == "call" and e.text.endswith("templating.resolve") and len(e.args) > 1:
+                a1 = e.args[1]
+                ing = a1.args[1] if isinstance(a1, Sym) and a1.head == "call:confectioner.mix" and len(a1.args) == 2 else None
+                if isinstance(ing, Coll):
+                    vk = ing.elem.key()
+                    escaped = "call:replace(" in vk and "Const('{')" in vk
+                    if "Val(evaluate,Child(params[*]))" in vk and not escaped:
+                        raw = True
+    res.add("labrea.template.Template.evaluate:a parameter's value cannot introduce option references", not raw, f, ev.lineno,
+            "parameter values are made literal before resolve() sees them" if not raw else
+            "the evaluated parameter values are mixed into the dictionary that resolve() resolves recursively: braces in a value are template references",
+            "keys() and explain() of a Template include every option key the substitution reads (C09); a key read only because a parameter's "
+            "value happened to contain {KEY} is read by evaluate() and reported by neither keys() nor validate()")
     eps = [p for p in run.paths(t, "evaluate") if p.status == "ret"]
     bad_r = [p.ret.key()[:80] for p in eps if not p.ret.key().startswith("call:str(call:confectioner.templating.resolve(Child(template),call:confectioner.mix(options,")]
     res.add("labrea.template.Template.evaluate:every returning path goes through resolve()", bool(eps) and not bad_r, f, ev.lineno,
